@@ -9,9 +9,11 @@ from engine import mark
 from TotalDepth.DAT import DAT_parser
 
 DECLS = [('UTIM', 'Unix Time', 'sec'), ('DATE', 'Date', 'ddmmyy'), ('TIME', 'Time', 'hhmmss'),
-         ('WAC', 'Wits Activity Code', 'unitless'), ('BDIA', 'Bit  Diameter', 'inch'), ('C1', 'Methane (C1)', 'ppm')]
-PERMS = [(0, 1, 2, 3, 4, 5), (5, 4, 3, 2, 1, 0), (3, 0, 4, 1, 5, 2), (2, 5, 1, 4, 0, 3)]
-HEADERS = [('WAC',), ('WAC', 'BDIA', 'C1'), ('C1', 'WAC'), ('BDIA',)]
+         ('WAC', 'Wits Activity Code', 'unitless'), ('BDIA', 'Bit  Diameter', 'inch'), ('C1', 'Methane (C1)', 'ppm'),
+         # ordinary numeric channels that merely share the units text of the three date / time columns
+         ('LAGT', 'Lag Time', 'sec'), ('DCOD', 'Day Code', 'ddmmyy'), ('TCOD', 'Tour Code', 'hhmmss')]
+PERMS = [(0, 1, 2, 3, 4, 5, 6, 7, 8), (8, 7, 6, 5, 4, 3, 2, 1, 0), (3, 0, 7, 4, 1, 8, 5, 2, 6), (6, 2, 5, 8, 1, 4, 7, 0, 3)]
+HEADERS = [('WAC',), ('WAC', 'BDIA', 'C1'), ('C1', 'LAGT', 'WAC'), ('TCOD', 'DCOD')]
 YEARS = [0, 6, 9, 50, 51, 99]
 MONTHS = ['Jan', 'Feb', 'Mar', 'Apr', 'May', 'Jun', 'Jul', 'Aug', 'Sep', 'Oct', 'Nov', 'Dec']
 VALUES = ['0', '8.50', '-1.25e3', '12']
@@ -45,6 +47,10 @@ def _text(perm, hdr, nrows, tab, style_b, yy, mon, corrupt, where):
             vals = vals[:-1]                         # a data line with a value missing
         if corrupt == 2 and r == where % nrows:
             vals = vals + ['7']                      # a data line with a value too many
+        if corrupt == 5 and r == where % nrows:
+            vals[-1] = vals[-1] + 'in'               # the right number of values, one of them not a number
+        if corrupt == 6 and r == where % nrows:
+            vals[1] = '99Xyz06'                      # the right number of values, the date not a date
         lines.append(sep.join(vals))
         model.append(row)
     return '\n'.join(lines) + '\n', names, model
@@ -58,11 +64,20 @@ def _dat(perm, hdr, nrows, tab, style_b, yy, mon, corrupt, where, eol=0):
     if eol & 2:
         text = text.replace('\n', '\r\n')
     mark.hit()
-    bad = corrupt in (3, 4) or (corrupt in (1, 2) and nrows > 0)
+    bad = corrupt in (3, 4) or (corrupt in (1, 2, 5, 6) and nrows > 0)
     try:
         fa = DAT_parser.parse_file(io.StringIO(text), 'id')
     except DAT_parser.ExceptionDAT:
-        return bad
+        # rejected with the DAT error; the probe (which looks no further than the first data row) answers rather than raising, and
+        # answers 'no' when the fault lies in the declarations, the header line or the first data row
+        if not bad:
+            return False
+        try:
+            can = DAT_parser.can_parse_file(io.StringIO(text))
+        except Exception:
+            return False
+        early = corrupt in (3, 4) or where % nrows == 0
+        return can is False if early else can in (False, True)
     if bad:
         return False
     can = DAT_parser.can_parse_file(io.StringIO(text))
@@ -101,7 +116,7 @@ def _dat(perm, hdr, nrows, tab, style_b, yy, mon, corrupt, where, eol=0):
 def dat_files(perm: int, hdr: int, nrows: int, tab: bool, style_b: bool, yy: int, mon: int, corrupt: int, where: int, eol: int = 0) -> bool:
     """
     pre: 0 <= perm <= 3 and 0 <= hdr <= 3 and 0 <= nrows <= 2
-    pre: 0 <= yy <= 5 and mon in (0, 1, 5, 11) and 0 <= corrupt <= 4 and 0 <= where <= 3
+    pre: 0 <= yy <= 5 and mon in (0, 1, 5, 11) and 0 <= corrupt <= 6 and 0 <= where <= 3
     pre: corrupt == 0 or eol <= 1
     pre: corrupt != 0 or where == 0
     pre: 0 <= eol <= 3
@@ -109,7 +124,7 @@ def dat_files(perm: int, hdr: int, nrows: int, tab: bool, style_b: bool, yy: int
     post: _
     """
     perm, hdr, nrows, yy, mon = mark.pick(perm, 0, 3), mark.pick(hdr, 0, 3), mark.pick(nrows, 0, 2), mark.pick(yy, 0, 5), mark.pick(mon, 0, 11)
-    corrupt, where, tab, style_b = mark.pick(corrupt, 0, 4), mark.pick(where, 0, 3), mark.pickb(tab), mark.pickb(style_b)
+    corrupt, where, tab, style_b = mark.pick(corrupt, 0, 6), mark.pick(where, 0, 3), mark.pickb(tab), mark.pickb(style_b)
     eol = mark.pick(eol, 0, 3)
     with mark.untraced():
         return _dat(perm, hdr, nrows, tab, style_b, yy, mon, corrupt, where, eol)
@@ -118,7 +133,7 @@ def dat_files(perm: int, hdr: int, nrows: int, tab: bool, style_b: bool, yy: int
 def dat_files_q(perm: int, hdr: int, nrows: int, tab: bool, style_b: bool, yy: int, mon: int, corrupt: int, where: int, eol: int = 0) -> bool:
     """
     pre: 0 <= perm <= 3 and 0 <= hdr <= 3 and 0 <= nrows <= 2
-    pre: 0 <= yy <= 5 and mon in (0, 1, 11) and 0 <= corrupt <= 4 and 0 <= where <= 1
+    pre: 0 <= yy <= 5 and mon in (0, 1, 11) and 0 <= corrupt <= 6 and 0 <= where <= 1
     pre: corrupt != 0 or where == 0
     pre: corrupt == 0 or (yy == 1 and mon == 11)
     pre: 0 <= eol <= 3 and (corrupt == 0 or eol <= 1)
@@ -126,7 +141,7 @@ def dat_files_q(perm: int, hdr: int, nrows: int, tab: bool, style_b: bool, yy: i
     post: _
     """
     perm, hdr, nrows, yy, mon = mark.pick(perm, 0, 3), mark.pick(hdr, 0, 3), mark.pick(nrows, 0, 2), mark.pick(yy, 0, 5), mark.pick_from(mon, (0, 1, 11))
-    corrupt, where, tab, style_b = mark.pick(corrupt, 0, 4), mark.pick(where, 0, 1), mark.pickb(tab), mark.pickb(style_b)
+    corrupt, where, tab, style_b = mark.pick(corrupt, 0, 6), mark.pick(where, 0, 1), mark.pickb(tab), mark.pickb(style_b)
     eol = mark.pick(eol, 0, 3)
     with mark.untraced():
         return _dat(perm, hdr, nrows, tab, style_b, yy, mon, corrupt, where, eol)
